@@ -127,7 +127,13 @@ def gset(E, name, idx, val):
     """ghost map update env[name][idx] := val"""
     env = E.frame.env
     g = env[name]
-    term = zint(val) if g.ek == "int" else zreal(val)
+    term = z3.simplify(zint(val) if g.ek == "int" else zreal(val))
+    if not (z3.is_const(term) or z3.is_int_value(term) or z3.is_rational_value(term)):
+        # store a NAME for the value: a compound value (if-then-else) inside the map term would make `map[j]`
+        # illegal as a quantifier trigger, and the solver would then pick looping triggers by itself
+        nm = E.fresh("gv_" + name, term.sort())
+        E.assume(nm == term)
+        term = nm
     env[name] = GArr(z3.Store(g.arr, idx, term), g.ek)
 
 
@@ -459,7 +465,7 @@ POS = "ready[len(g_R0) - _i + g_k[j]]"
 TICK_INV = [
     # (1) unprocessed tail untouched and in order
     "len(ready) == len(g_R0) - _i + g_k[_i]",
-    "forall(lambda j: implies(0 <= j and j < len(g_R0) - _i, ready[j] == g_R0[_i + j]))",
+    "forall(lambda j: implies(0 <= j and j < len(g_R0) - _i, ready[j] == g_R0[_i + j]), trigger=lambda j: ready[j][0])",
     # prefix counts
     "g_k[0] == 0 and g_d[0] == 0 and g_a[0] == 0 and 0 <= g_k[_i] and 0 <= g_d[_i] and 0 <= g_a[_i]",
     "forall(lambda j: implies(0 <= j and j < _i, 0 <= g_out[j] and g_out[j] <= 3), trigger=lambda j: g_out[j])",
@@ -483,7 +489,7 @@ TICK_INV = [
     "ct_res(g_base + g_d[j]) == g_st[j] and iff(g_out[j] == 2, g_st[j] == 3)), trigger=lambda j: g_out[j])",
     # (4) ABORTED / StopIteration entries are appended to `aborted` (and are not among the kept ones)
     "len(aborted) == len(g_A0) + g_a[_i]",
-    "forall(lambda k: implies(0 <= k and k < len(g_A0), aborted[k] == g_A0[k]))",
+    "forall(lambda k: implies(0 <= k and k < len(g_A0), aborted[k] == g_A0[k]), trigger=lambda k: g_A0[k][0])",
     "forall(lambda j: implies(0 <= j and j < _i and g_out[j] >= 2, "
     "aborted[len(g_A0) + g_a[j]] == (g_R0[j][0], stamp, g_R0[j][2])), trigger=lambda j: g_out[j])",
 ]
@@ -506,7 +512,7 @@ MORE_INV = [
 ]
 SWEEP_INV = [
     "len(ready) == len(g_F0) - _i",
-    "forall(lambda j: implies(0 <= j and j < len(ready), ready[j] == g_F0[_i + j]))",
+    "forall(lambda j: implies(0 <= j and j < len(ready), ready[j] == g_F0[_i + j]), trigger=lambda j: ready[j][0])",
     "ct_len() == g_fbase + _i",
     "forall(lambda k: implies(0 <= k and k < _i, ct_is(g_fbase + k, 'send', g_F0[k][0], 3)), trigger=lambda k: g_F0[k][0])",
 ]
